@@ -46,6 +46,54 @@ CHECKS = {
         note="trusted: rustc resolution/typeck, std integer comparisons and TryFrom, str primitives, regex crate",
         technique="static analysis: dispatch-table extraction + abstract interpretation of comparison functions over integer classes",
         design_ref="DESIGN.md section 4 C07"),
+    "C12": dict(
+        category="other",
+        text="InterpretedQuery::from_query_and_arguments is abstractly evaluated (typed AST; BTreeMap/Vec/iterators modelled) "
+             "on every combination of per-variable status (missing/valid/invalid) for up to two variables plus an optional "
+             "unused argument: Ok exactly when nothing is missing, unused or ill-typed, otherwise exactly the offending names in "
+             "the right error kinds; complete table of Type::is_valid_value (depth <= 2, four scalar bases, nested lists) and of "
+             "the per-operator variable-type inference against their definitions. Uniformity in the number of variables is assumed.",
+        note="trusted: the std collection model in tfv/stdmodel.py, the algebraic Type model (tymodel.py)",
+        technique="static analysis: abstract interpretation of the typed HIR over status / type classes (decision tables)",
+        design_ref="DESIGN.md section 4 C12"),
+    "C15": dict(
+        category="other",
+        text="Narrow structural clauses: the serialized mirror of DataContext has the same fields/types and both conversions "
+             "move every field; per resolver the set of trace operations the recording adapter writes equals the set the "
+             "replaying reader accepts (the readers end in `_ => unreachable!()`, so rustc does not check this); the recording "
+             "closures return the inner adapter's items unchanged. Not decided: equality of rows.",
+        note="trusted: Iterator::inspect/map semantics; serde round-trip of the trace (C16)",
+        technique="static analysis: ADT mirror comparison + writer/reader variant-set agreement over typed HIR",
+        design_ref="DESIGN.md section 4 C15"),
+    "C16": dict(
+        category="other",
+        text="Narrow structural clauses read from the expanded serde derives in the typed HIR: every field omitted under "
+             "predicate P is read back through a default D with P(D) true (47 fields); Type serializes via Display and "
+             "deserializes via Type::parse; TransparentValue is untagged and tries Null, Int64, Uint64, Float64 in that order; "
+             "FieldValue <-> TransparentValue are identities on variants and payloads. Not decided: Display/parse inverse on "
+             "the bitmask, serde/serde_json/ron themselves.",
+        note="trusted: serde's derive semantics as seen in its expansion; std Default impls",
+        technique="static analysis: facts extracted from expanded derive code in typed HIR + variant tables",
+        design_ref="DESIGN.md section 4 C16"),
+    "C17": dict(
+        category="other",
+        text="Complete tables of Type::intersect, is_scalar_only_subtype, equal_ignoring_nullability, is_valid_value over all "
+             "types of list depth <= 2 (base case and inductive step of the structural recursion) by abstract evaluation of "
+             "their typed AST over the algebraic model of types; lattice laws checked on the tables (meet: commutative, "
+             "idempotent, lower bound, greatest, None iff shapes differ; partial order; upward-closed validity; equivalence). "
+             "Primitive bit-mask accessors are the model boundary (constants and shift agreement checked).",
+        note="trusted: the primitive accessors implement the algebraic view; recursion uniform in depth",
+        technique="static analysis: abstract interpretation over an algebraic type model + law checking on finite tables",
+        design_ref="DESIGN.md section 4 C17"),
+    "C18": dict(
+        category="other",
+        text="No lossy numeric `as` cast in the serialization module (MIR cast scan); sibling table: every sized-integer entry "
+             "point deserialize_T uses TryInto<T>, propagates the error and calls visit_T for both integer variants, everything "
+             "else forwards to deserialize_any whose variant table is the identity; deserialize_tuple rejects a length mismatch "
+             "first. One known finding (Enum -> todo!()).",
+        note="trusted: serde visitors, std TryFrom",
+        technique="static analysis: MIR cast scan + sibling dispatch-table agreement over typed HIR",
+        design_ref="DESIGN.md section 4 C18"),
     "C14": dict(
         category="other",
         text="Decides that no process-dependent input can reach a compiled query, an error or a row: no hash container "
